@@ -618,6 +618,14 @@ func (fr *Framer) checkFrameOrder(fh FrameHeader) error {
 		} else {
 			fr.lastHeaderStream = fh.StreamID
 		}
+	case FramePushPromise:
+		// A PUSH_PROMISE without END_HEADERS also starts a header block
+		// that must be continued by CONTINUATION frames on the same stream.
+		if fh.Flags.Has(FlagPushPromiseEndHeaders) {
+			fr.lastHeaderStream = 0
+		} else {
+			fr.lastHeaderStream = fh.StreamID
+		}
 	}
 
 	return nil
